@@ -338,7 +338,7 @@ Fixpoint set_nthq (k : nat) (x : Q) (l : list Q) : list Q :=
   end.
 Definition range_write (ranges : list Q) (ivar : Z) (v : Q) : list Q :=
   let r1 := if Z.eqb ivar 0 then map (fun _ => v) ranges else ranges in
-  if Z.ltb ivar (Z.of_nat (length ranges)) then set_nthq (Z.to_nat ivar) v r1 else r1.
+  if Z.leb 0 ivar && Z.ltb ivar (Z.of_nat (length ranges)) then set_nthq (Z.to_nat ivar) v r1 else r1.
 (* all RANGE parameters of structure icov, in the order of the list *)
 Fixpoint ranges_of (icov : Z) (ps : list parid) (vals : list Q) (ranges : list Q) : list Q :=
   match ps, vals with
